@@ -18,6 +18,7 @@ fn main() {
         Some("range-parse") => range::parse_one(&args[1..]),
         Some("pattern-search") => pattern::search(),
         Some("pattern") => pattern::one(&args[1..]),
+        Some("pattern-new") => pattern::new_list(&args[1..]),
         Some("route") => service::route(&args[1..]),
         Some("meta") => service::meta(&args[1..]),
         Some("raw") => service::raw(&args[1..]),
@@ -29,6 +30,8 @@ fn main() {
         Some("wire-stream") => service::wire_stream(&args[1..]),
         Some("dispatch") => service::dispatch(),
         Some("gates") => service::gates(),
+        Some("body-length") => service::body_length(),
+        Some("qs-lookup") => service::qs_lookup(),
         Some("xml-text") => service::xml_text(),
         Some("host-config") => service::host_config(),
         Some("wire-status") => service::wire_status(&args[1..]),
@@ -48,6 +51,7 @@ fn main() {
         Some("sigv2-presigned") => sigv4::v2_presigned(&args[1..]),
         Some("post-form") => sigv4::post_form(&args[1..]),
         Some("sigv4-tamper") => sigv4::tamper(),
+        Some("sigv4-scope") => sigv4::scope_tamper(),
         Some("sigv2-tamper") => sigv4::v2_tamper(),
         Some("sigv2-append") => sigv4::v2_append(),
         Some("sigv4-search") => sigv4::search(),
